@@ -592,22 +592,27 @@ def check(ctx):
 # a per-call memo of resolved fields in flattenEvent (one keyed wrongly = mutant, one keyed properly = silent variant)
 _M_DECL = (FLAT, "    keyFlattener = KeyFlattener()\n\n    for literalText, fieldName, formatSpec, conversion in aFormatter.parse(\n        event[\"log_format\"]\n    ):\n        if fieldName is None:",
            "    keyFlattener = KeyFlattener()\n    lookedUp = {}\n\n    for literalText, fieldName, formatSpec, conversion in aFormatter.parse(\n        event[\"log_format\"]\n    ):\n        if fieldName is None:")
-_M_OLD = ("        field = aFormatter.get_field(fieldName, (), event)\n        fieldValue = field[0]\n\n        if conversion == \"r\":\n            conversionFunction = repr\n"
-          "        else:  # Above: if conversion is not \"r\", it's \"s\"\n            conversionFunction = str\n\n        if callit:\n            fieldValue = fieldValue()\n\n")
+_CONV_FIXED = '        if conversion == "r":\n            conversionFunction = repr\n        elif conversion == "a":\n            conversionFunction = ascii\n        else:  # Above: if conversion is not "r" or "a", it\'s "s"\n            conversionFunction = str\n'
+_M_OLD = ("        field = aFormatter.get_field(fieldName, (), event)\n        fieldValue = field[0]\n\n" + _CONV_FIXED + "\n        if callit:\n            fieldValue = fieldValue()\n\n")
 
 
 def _memo(keyexpr):
     return (f"        memoKey = {keyexpr}\n        if memoKey in lookedUp:\n            fieldValue = lookedUp[memoKey]\n        else:\n"
             "            fieldValue = aFormatter.get_field(fieldName, (), event)[0]\n            if callit:\n                fieldValue = fieldValue()\n"
-            "            lookedUp[memoKey] = fieldValue\n\n        if conversion == \"r\":\n            conversionFunction = repr\n        else:\n            conversionFunction = str\n\n")
+            "            lookedUp[memoKey] = fieldValue\n\n" + _CONV_FIXED + "\n")
 
 
 MUTANTS = [
     Mutant("reader-default-conversion-empty", FLAT, "conversion or \"s\")", "conversion or \"\")", expect_rule="roundtrip/concrete-family"),
-    Mutant("writer-normalisation-dropped", FLAT, "        if conversion != \"r\":\n            conversion = \"s\"\n\n        flattenedKey", "        flattenedKey",
+    Mutant("revert-F56a-ascii-conversion-kept", FLAT, "        if conversion not in (\"r\", \"a\"):\n            conversion = \"s\"\n", "        if conversion != \"r\":\n            conversion = \"s\"\n",
+           more=[(FLAT, _CONV_FIXED, "        if conversion == \"r\":\n            conversionFunction = repr\n        else:  # Above: if conversion is not \"r\", it's \"s\"\n            conversionFunction = str\n")],
+           expect_rule="conversion/key-agreement"),
+    Mutant("ascii-key-kept-but-rendered-with-str", FLAT, "        elif conversion == \"a\":\n            conversionFunction = ascii\n", "", expect_rule="conversion/function-agreement"),
+    Mutant("writer-normalisation-dropped", FLAT, "        if conversion not in (\"r\", \"a\"):\n            conversion = \"s\"\n\n        flattenedKey", "        flattenedKey",
            expect_rule="roundtrip/concrete-family"),
-    Mutant("writer-conversion-functions-swapped", FLAT, "            conversionFunction = repr\n        else:  # Above: if conversion is not \"r\", it's \"s\"\n            conversionFunction = str\n",
-           "            conversionFunction = str\n        else:\n            conversionFunction = repr\n", expect_rule="roundtrip/concrete-family"),
+    Mutant("writer-conversion-functions-swapped", FLAT, _CONV_FIXED,
+           "        if conversion == \"r\":\n            conversionFunction = str\n        elif conversion == \"a\":\n            conversionFunction = ascii\n        else:\n            conversionFunction = repr\n",
+           expect_rule="roundtrip/concrete-family"),
     Mutant("key-ignores-conversion", FLAT, "\"{fieldName}!{conversion}:{formatSpec}\".format(", "\"{fieldName}!:{formatSpec}\".format(", expect_rule="roundtrip/concrete-family"),
     Mutant("convert-before-call", FLAT, "        if callit:\n            fieldValue = fieldValue()\n\n        flattenedValue = conversionFunction(fieldValue)\n",
            "        flattenedValue = conversionFunction(fieldValue)\n        if callit:\n            fieldValue = fieldValue()\n", expect_rule="roundtrip/concrete-family"),
@@ -644,8 +649,8 @@ MUTANTS = [
     Mutant("dispatch-dropped", FMT, "        if \"log_flattened\" in event:\n            return flatFormat(event)\n\n", "", expect_rule="roundtrip/concrete-family"),
 ]
 SILENT = [
-    Silent("writer-branch-inverted", FLAT, "        if conversion == \"r\":\n            conversionFunction = repr\n        else:  # Above: if conversion is not \"r\", it's \"s\"\n            conversionFunction = str\n",
-           "        if conversion != \"r\":\n            conversionFunction = str\n        else:\n            conversionFunction = repr\n"),
+    Silent("writer-branch-reordered", FLAT, _CONV_FIXED,
+           "        if conversion == \"a\":\n            conversionFunction = ascii\n        elif conversion != \"r\":\n            conversionFunction = str\n        else:\n            conversionFunction = repr\n"),
     Silent("reader-renamed-locals", FLAT, "    for literalText, fieldName, formatSpec, conversion in aFormatter.parse(\n        event[\"log_format\"]\n    ):\n        s.append(literalText)\n\n        if fieldName is not None:\n            key = keyFlattener.flatKey(fieldName, formatSpec, conversion or \"s\")\n            s.append(str(fieldValues[key]))\n",
            "    for lit, name, spec, conv in aFormatter.parse(\n        event[\"log_format\"]\n    ):\n        s.append(lit)\n        if name is None:\n            continue\n        key = keyFlattener.flatKey(name, spec, conv or \"s\")\n        s.append(str(fieldValues[key]))\n"),
     Silent("flatkey-suffix-test", FLAT, "        if n != 1:\n", "        if n > 1:\n"),
@@ -659,7 +664,7 @@ SILENT = [
            "    def pieces():\n        for lit, name, spec, conv in aFormatter.parse(event[\"log_format\"]):\n            yield lit\n            if name is None:\n                continue\n            yield str(fieldValues[keyFlattener.flatKey(name, spec, conv if conv else \"s\")])\n\n    return \"\".join(pieces())"),
     Silent("field-resolution-in-helper", FLAT, _M_OLD + "        flattenedValue = conversionFunction(fieldValue)\n",
            "        fieldValue, flattenedValue = _lookUp(fieldName, callit, conversion, event)\n",
-           more=[(FLAT, "def flattenEvent(event: LogEvent) -> None:\n", "def _lookUp(name, call, conv, event):\n    found = aFormatter.get_field(name, (), event)[0]\n    if call:\n        found = found()\n    return found, (repr(found) if conv == \"r\" else str(found))\n\n\ndef flattenEvent(event: LogEvent) -> None:\n")]),
+           more=[(FLAT, "def flattenEvent(event: LogEvent) -> None:\n", "def _lookUp(name, call, conv, event):\n    found = aFormatter.get_field(name, (), event)[0]\n    if call:\n        found = found()\n    return found, {\"r\": repr, \"a\": ascii}.get(conv, str)(found)\n\n\ndef flattenEvent(event: LogEvent) -> None:\n")]),
     Silent("fallback-encoder-at-module-level", JSON, "    def default(unencodable: object) -> Union[JSONDict, str]:\n", "    def unusedLocal(unencodable: object) -> Union[JSONDict, str]:\n",
            more=[(JSON, "    return dumps(event, default=default, skipkeys=True)", "    return dumps(event, default=_fallback, skipkeys=True)"),
                  (JSON, "def eventAsJSON(event: LogEvent) -> str:\n", "def _fallback(thing):\n    if not isinstance(thing, bytes):\n        return objectSaveHook(thing)\n    return thing.decode(\"charmap\")\n\n\ndef eventAsJSON(event: LogEvent) -> str:\n")]),
